@@ -81,6 +81,8 @@ def _case(draw, tier):
         "route": draw(st.sampled_from(["topology", "topology", "topology", "radius", "radius", "subset", "subset-after-nfc", "subset-after-dual"])),
         "radius": draw(st.sampled_from([2.5, 40.0, 6371229.0])),
         "drop": draw(st.lists(st.integers(0, 10_000), min_size=1, max_size=4)),
+        # storage type of node_lon / node_lat (single-precision sources are judged on the positions their values denote)
+        "coord_dtype": draw(st.sampled_from(["float64", "float64", "float64", "float32"])),
     }
 
 
@@ -179,16 +181,25 @@ def run_case(case, ctx):
     def bad(oracle, kind, detail, s=None):
         fails.append(Failure(oracle, s or site, kind, detail))
 
+    f32 = case.get("coord_dtype") == "float32" and mesh.get("family") != "tiny-patch"
+    POS_TOL = 1e-7
+    if f32:
+        mesh = dict(mesh, nodes=[[float(np.float32(a)), float(np.float32(b))] for a, b in mesh["nodes"]])
+        nodes = mesh["nodes"]
+        POS_TOL = 2e-6
+        site += ":float32-coordinates"
     if not in_domain(mesh):
         ctx.label("out-of-domain:face-not-convex-or-too-large")
         return fails
     route = case.get("route", "topology")
+    if f32 and route == "radius":
+        route = "topology"
     if route == "radius":
         xyz_r = meshgen.mesh_xyz(mesh) * case["radius"]
         g = build.grid_from_mesh(mesh, node_x=np.ascontiguousarray(xyz_r[:, 0]), node_y=np.ascontiguousarray(xyz_r[:, 1]), node_z=np.ascontiguousarray(xyz_r[:, 2]))
         site += ":cartesian-radius"
     else:
-        g = build.grid_from_mesh(mesh)
+        g = build.grid_from_mesh(mesh, coord_dtype="float32" if f32 else "float64")
     if route.startswith("subset") and n_face >= 5:
         if route == "subset-after-nfc":
             g.node_face_connectivity
@@ -252,7 +263,7 @@ def run_case(case, ctx):
         cxyz = writers.face_centres_xyz(mesh)
         dxyz = S.ll2xyz_np(np.asarray(d.node_lon.values, float), np.asarray(d.node_lat.values, float))
         for k in range(n_face):
-            if not S.same_position(tuple(cxyz[k]), tuple(dxyz[k]), 1e-7):
+            if not S.same_position(tuple(cxyz[k]), tuple(dxyz[k]), POS_TOL):
                 bad("dual_nodes_are_face_centres", "moved", f"{tag}: dual node {k} at {S.xyz2ll(tuple(dxyz[k]))} but face {k} centre is {S.xyz2ll(tuple(cxyz[k]))}")
                 break
         # ---- rings
